@@ -217,7 +217,7 @@ def r3_annotation_present(ctx):
             lp = enclosing_loop(n)
             if isinstance(lp, ast.For) and norm(lp.iter).endswith(".parameters.items()") and isinstance(lp.target, ast.Tuple):
                 kv = [dotted(x) for x in lp.target.elts]
-                txt = norm(n.args[0]) if n.args else ""
+                txt = norm(expand(f, n.args[0])) if n.args else ""
                 per_item = all(v and v in txt for v in kv)
         ctx.check(ok and per_item, f.qual + "#note", "notes every (key, value) of the failing run's parameters" if ok and per_item else "the failing run's parameter values are not attached to the error", where=f, node=notes[0] if notes else t)
         bare = [x for x in walk_ordered(hs[0]) if isinstance(x, ast.Raise)] if ok else []
